@@ -1563,7 +1563,9 @@ MUTANTS = [
      'edits': [(O_, "    yaml_dict = misc.copy()", "    yaml_dict = {}")]},
     {'name': 'only int/float get units again', 'expect': ('PATH.assign', 'write_yaml'),
      'edits': [('pmutt/omkm/__init__.py', '    if isinstance(param.val, numbers.Number):', '    if isinstance(param.val, (int, float)):'),
-               ('pmutt/omkm/__init__.py', "    else:\n        err_msg = ('Unable to write {} ({}) with units. Expected a number, a '", "    elif False:\n        err_msg = ('Unable to write {} ({}) with units. Expected a number, a '")]},
+               ('pmutt/omkm/__init__.py', "    else:\n        err_msg = ('Unable to write {} ({}) with units. Expected a number, a '", "    elif False:\n        err_msg = ('Unable to write {} ({}) with units. Expected a number, a '"),
+               # since 9a02d60 NumPy numbers are converted first: the mutant needs that conversion gone to bite
+               ('pmutt/omkm/__init__.py', "    if hasattr(param.val, 'tolist'):\n        param = param._replace(val=param.val.tolist())", "    if False:\n        param = param._replace(val=param.val.tolist())")]},
     {'name': 'volume written with the area unit', 'expect': ('DATAFLOW.reactor', 'write_yaml'),
      'edits': [(O_, "_Param('volume', V, '_length3')", "_Param('volume', V, '_length2')")]},
     {'name': 'reaction emitted before it gets its id', 'expect': ('', 'write_cti'),
@@ -1603,7 +1605,8 @@ MUTANTS = [
     {'name': 'adjacent phase objects named by the interface itself', 'expect': ('DATAFLOW.phase', 'InteractingInterface.to_cti'),
      'edits': [('pmutt/omkm/phase.py', "                phases_names.append(phase.name)", "                phases_names.append(self.name)")]},
     {'name': 'NumPy numbers written without the unit', 'expect': ('', 'write_yaml'),
-     'edits': [('pmutt/omkm/__init__.py', "        val_str = '\\\"{} {}\\\"'.format(param.val, param.units)", "        val_str = '\\\"{} {}\\\"'.format(param.val, param.units if isinstance(param.val, (int, float)) else '')")]},
+     'edits': [('pmutt/omkm/__init__.py', "        val_str = '\\\"{} {}\\\"'.format(param.val, param.units)", "        val_str = '\\\"{} {}\\\"'.format(param.val, param.units if isinstance(param.val, (int, float)) else '')"),
+               ('pmutt/omkm/__init__.py', "    if hasattr(param.val, 'tolist'):\n        param = param._replace(val=param.val.tolist())", "    if False:\n        param = param._replace(val=param.val.tolist())")]},
     # the five defects of the review (DEFECT_C07.md), fixed in pMuTT: each fix reverted, plus the instances around them
     {'name': 'revert b1bdf71: Shomate site occupancy as a one-element tuple', 'expect': ('SLOT.yaml', 'Shomate.to_omkm_yaml'),
      'edits': [('pmutt/empirical/shomate.py', "            yaml_dict['sites'] = self.n_sites\n", "            yaml_dict['sites'] = self.n_sites,\n")]},
